@@ -6,4 +6,27 @@ Obs == [now |-> now, pool |-> pool]
 Emit == PrintT("EDGE " \o ToJson([f |-> sv, a |-> act', t |-> sv', o |-> Obs']))
 EmitInit == PrintT("INIT " \o ToJson([t |-> sv, o |-> Obs]))
 InitE == Init /\ EmitInit
+
+(* ---- reduction: requests are interchangeable, so they are minted in the order of ReqSeq ---- *)
+ReqSeq == ${ReqSeq}
+Ord(r) == CHOOSE i \in 1..Len(ReqSeq) : ReqSeq[i] = r
+Canon == \A r \in Reqs : (ts[r] = NoTs /\ ts'[r] # NoTs) => \A q \in Reqs : Ord(q) < Ord(r) => ts[q] # NoTs
+
+(* ---- test purposes: states the design reaches and whose witness behaviour (TLC's counterexample to the
+        negated purpose) is replayed on the real server; they direct the replay to corners that a path cover of
+        the small graph and random walks do not reach (see also TPTcpReplay.tla) ---- *)
+Idx(r) == CHOOSE i \in 1..Len(pool) : pool[i].s = r
+
+\* A request is presented again exactly at the instant its pool entry expires while its timestamp still passes
+\* (the boundary between "repeat" and a second acceptance).
+PurposeBoundary ==
+    /\ act.n = "Try" /\ act.out = "repeat"
+    /\ LET r == act.r IN pool[Idx(r)].e = now + 1 /\ Abs(ts[r] - Sec(now)) <= PD /\ Len(pool) >= 2
+NotPurposeBoundary == ~PurposeBoundary
+
+\* Two presenters hold the same request between the clock sample and Add, and the second Add reports the repeat.
+PurposeRace ==
+    /\ act.n = "Add" /\ act.out = "repeat"
+    /\ \E p \in Procs : pc[p] = "auth"
+NotPurposeRace == ~PurposeRace
 =============================================================================
